@@ -100,6 +100,19 @@ func verifPrintableFile() *descriptorpb.FileDescriptorProto {
 			loc([]int32{4, 0, 2, 0}, la+1, " field a\n", " inline\n"),
 			loc([]int32{4, 0, 2, 1}, la+3, "", " two\n lines\n"),
 		}}
+		// one more leading comment (two lines) on an element of another kind
+		extra := [][]int32{nil, {4, 0, 3, 0}, {4, 0, 4, 0}, {4, 0, 4, 0, 2, 1}, {4, 0, 8, 0}, {4, 0, 2, 4}, {4, 0, 2, 2}, {5, 0}, {5, 0, 2, 0}, {4, 1, 2, 0}, {6, 0}, {6, 0, 2, 0}, {7, 0}}
+		k := ndChoice("alsoCommented(0 none,1 nested message,2 nested enum,3 its value,4 oneof,5 oneof field,6 field after a two-line trailing comment,7 top enum,8 its value,9 field of the other message,10 service,11 method,12 extension)", len(extra))
+		if k >= 10 && k <= 11 && len(fdp.Service) == 0 || k == 12 && nx == 0 {
+			k = 0
+		}
+		if k > 0 {
+			line := la + 6
+			if extra[k][0] != 4 || extra[k][1] != 0 {
+				line = 50 + int32(k)
+			}
+			fdp.SourceCodeInfo.Location = append(fdp.SourceCodeInfo.Location, loc(extra[k], line, " first line\n second line\n", ""))
+		}
 	}
 	return fdp
 }
@@ -183,7 +196,7 @@ func HarnessPrintFileOptions() {
 	// one further variation at a time, on the file without key and message options
 	variant := 0
 	if !withKey && !withMsgOpts {
-		variant = ndChoice("variant(0 none,1-3 single option source layout,4 second method option,5 two map entries,6 http rule with body)", 7)
+		variant = ndChoice("variant(0 none,1-3 single option source layout,4 second method option,5 two map entries,6 http rule with body,7 enum value option with only its map set)", 8)
 	}
 	// an enum, one of its values, a service and its method carry options too
 	enumOpts, valueOpts := &descriptorpb.EnumOptions{}, &descriptorpb.EnumValueOptions{}
@@ -191,8 +204,12 @@ func HarnessPrintFileOptions() {
 	eOpt := &ext_j5pb.EnumOptions{NoDefault: true, InfoFields: []*ext_j5pb.EnumInfoField{{Name: "n", Label: "l"}}}
 	evOpt := &ext_j5pb.EnumValueOptions{Description: "d", Info: map[string]string{"k1": "v1"}}
 	twoInfo := variant == 5
+	mapOnly := variant == 7
+	if mapOnly {
+		evOpt.Description = ""
+	}
 	if twoInfo {
-		evOpt.Info["k0"] = "v0" // Range over the map takes either order (engine.maporder)
+		evOpt.Info["K1"] = "v0" // keys differing only in case; Range over the map takes either order (engine.maporder)
 	}
 	sOpt := &ext_j5pb.ServiceOptions{Type: &ext_j5pb.ServiceOptions_StateQuery_{StateQuery: &ext_j5pb.ServiceOptions_StateQuery{Entity: "thing"}}}
 	hOpt := &annotations.HttpRule{Pattern: &annotations.HttpRule_Get{Get: "/v1/x"}}
@@ -390,10 +407,13 @@ func HarnessPrintFileOptions() {
 		return
 	}
 	wantEnum := []rdLeaf{{"(j5.ext.v1.enum)/no_default", "true"}, {"(j5.ext.v1.enum)/info_fields/0/name", "\"n\""},
-		{"(j5.ext.v1.enum)/info_fields/0/label", "\"l\""}, {"E_ONE:(j5.ext.v1.enum_value)/description", "\"d\""}}
+		{"(j5.ext.v1.enum)/info_fields/0/label", "\"l\""}}
+	if !mapOnly {
+		wantEnum = append(wantEnum, rdLeaf{"E_ONE:(j5.ext.v1.enum_value)/description", "\"d\""})
+	}
 	const info = "E_ONE:(j5.ext.v1.enum_value)/info/"
 	if twoInfo { // map entries are printed as a list of {key, value}, sorted by key
-		wantEnum = append(wantEnum, rdLeaf{info + "0/key", "\"k0\""}, rdLeaf{info + "0/value", "\"v0\""}, rdLeaf{info + "1/key", "\"k1\""}, rdLeaf{info + "1/value", "\"v1\""})
+		wantEnum = append(wantEnum, rdLeaf{info + "0/key", "\"K1\""}, rdLeaf{info + "0/value", "\"v0\""}, rdLeaf{info + "1/key", "\"k1\""}, rdLeaf{info + "1/value", "\"v1\""})
 	} else {
 		wantEnum = append(wantEnum, rdLeaf{info + "0/key", "\"k1\""}, rdLeaf{info + "0/value", "\"v1\""})
 	}
